@@ -182,10 +182,55 @@ func FirstSave(v *vrt.Ctx) {
 	v.Assert(c17.Same(v, other, other2), "C12/other-sessions-untouched")
 }
 
+// WriteFault: the save of a new state meets a write error (a full disk, a
+// quota, a size limit: part of the data gets out, the write fails, the
+// process lives). Whatever the save reports, a later start finds a complete
+// record: the new state if the save reported success, the old or the new one
+// otherwise.
+func WriteFault(v *vrt.Ctx) {
+	ctx := context.Background()
+	dir, ref := v.TempDir(), v.TempDir()
+	last := []byte{[]byte("1203")[v.Choice("last-input", 4)]}
+	for _, d := range []string{dir, ref} {
+		serve(v, ctx, d, "s1.b", nil, false)
+		serve(v, ctx, d, "s1", nil, false)
+	}
+	other, ok := load(ctx, dir, "s1.b")
+	v.Assume(ok)
+	old, ok := load(ctx, dir, "s1")
+	v.Assume(ok)
+	serve(v, ctx, ref, "s1", last, false)
+	want, ok := load(ctx, ref, "s1")
+	v.Assume(ok)
+
+	var ferr error
+	injected := v.WriteFault(func() { _, ferr = serveErr(v, ctx, dir, "s1", last, false) })
+	v.Observe("injected", injected)
+	v.Observe("save-error", ferr != nil)
+
+	got, ok := load(ctx, dir, "s1")
+	v.Assert(ok, "C12/record-loads-after-a-failed-write")
+	if !ok {
+		return
+	}
+	if ferr == nil {
+		v.Assert(c17.Same(v, got, want), "C12/completed-save-stores-the-new-state")
+	} else {
+		v.Assert(injected, "C12/save-fails-only-on-a-fault")
+		v.Assert(v.Or(c17.Same(v, got, old), c17.Same(v, got, want)), "C12/record-is-the-old-or-the-new-state")
+		v.Cover("C12/write-fault-reported")
+	}
+	other2, ok := load(ctx, dir, "s1.b")
+	v.Assert(ok, "C12/other-sessions-untouched")
+	v.Assert(c17.Same(v, other, other2), "C12/other-sessions-untouched")
+	v.Cover("C12/write-fault-done")
+}
+
 var Harnesses = map[string]func(*vrt.Ctx){
-	"FirstSave": FirstSave,
-	"Crash": Crash,
-	"Dbg":   Dbg,
+	"WriteFault": WriteFault,
+	"FirstSave":  FirstSave,
+	"Crash":      Crash,
+	"Dbg":        Dbg,
 }
 
 // Dbg: development aid.
